@@ -243,9 +243,31 @@ Fixpoint put_tuple (t : otuple) (tuples : list otuple) : list otuple :=
   | [] => [t]
   | x :: r => if otuple_eq t x then t :: r else x :: put_tuple t r
   end.
+(** *** the hashed table.  RefHashTableOf<FieldValueMap, ICValueHasher>::get/put only look into the bucket selected by
+    ICValueHasher::getHashVal, which is computed from the canonical representation of each field value w.r.t. the
+    most generic base validator ([vhash], a parameter like [veq]).  The model keeps, per tuple, the list of the
+    per-field hash keys as its bucket (finer than the C++ sum modulo the table size: a collision only merges
+    buckets, and equals() is still applied inside a bucket).  [contains]/[put_tuple] above are the plain list
+    search; Proofs10a shows that they coincide with the hashed versions when equal values have equal hash keys. *)
+Variable vhash : V -> list N.
+Fixpoint nl_eqb (a b : list N) : bool :=
+  match a, b with [], [] => true | x :: r, y :: s => N.eqb x y && nl_eqb r s | _, _ => false end.
+Fixpoint nll_eqb (a b : list (list N)) : bool :=
+  match a, b with [], [] => true | x :: r, y :: s => nl_eqb x y && nll_eqb r s | _, _ => false end.
+Definition ohash (o : option V) : list N := match o with Some v => vhash v | None => [] end.
+Definition thash (t : otuple) : list (list N) := map ohash t.
+Definition same_bucket (a b : otuple) : bool := nll_eqb (thash a) (thash b).
+Definition containsH (tuples : list otuple) (t : otuple) : bool :=
+  existsb (fun x => same_bucket t x && otuple_eq t x) tuples.
+Fixpoint put_tupleH (t : otuple) (tuples : list otuple) : list otuple :=
+  match tuples with
+  | [] => [t]
+  | x :: r => if same_bucket t x && otuple_eq t x then t :: r else x :: put_tupleH t r
+  end.
+
 (** ValueStore::append *)
 Definition append_tuples (dst src : list otuple) : list otuple :=
-  fold_left (fun d t => if contains d t then d else put_tuple t d) src dst.
+  fold_left (fun d t => if containsH d t then d else put_tupleH t d) src dst.
 
 Definition get_may (s : st) (icx f : nat) : bool :=
   match find (fun e => (fst (fst e) =? icx) && (snd (fst e) =? f)) (s_may s) with Some e => snd e | None => true end.
@@ -264,7 +286,7 @@ Definition vs_add (f : nat) (v : V) (vs : vstore) : option (vstore * bool) :=
     let count := match old with None => S (vs_count vs) | Some _ => vs_count vs end in
     let vals := upd_nth f (Some v) (vs_vals vs) in
     if count =? length vals
-    then Some (mkVS (vs_ic vs) vals count (put_tuple vals (vs_tuples vs)), contains (vs_tuples vs) vals)
+    then Some (mkVS (vs_ic vs) vals count (put_tupleH vals (vs_tuples vs)), containsH (vs_tuples vs) vals)
     else Some (mkVS (vs_ic vs) vals count (vs_tuples vs), false)
   end.
 
@@ -436,7 +458,7 @@ Definition end_document_fragment (icx sid : nat) (s : st) : st :=
   match lookup1 (m_refer (ic_at icx)) (s_gmap s) with
   | None => match vs_tuples (store_at s sid) with [] => s | _ => emit E_KeyRefOutOfScope s end   (* repaired: F31 *)
   | Some kid => let keys := vs_tuples (store_at s kid) in
-                fold_left (fun s t => if contains keys t then s else emit E_KeyNotFound s) (vs_tuples (store_at s sid)) s
+                fold_left (fun s t => if containsH keys t then s else emit E_KeyNotFound s) (vs_tuples (store_at s sid)) s
   end.
 
 (** ValueStoreCache::endElement *)
